@@ -464,3 +464,45 @@ def expression_cases(text: str, with_spans: bool = False):
             walk(c)
     walk(tree)
     return out
+
+
+def assignment_cases(text: str):
+    """[(source characters of the assignment up to the end of its first line of comment, name, expression as tree_to_sx reads
+    Lark's tree, has a trailing comment)] for every assignment line of a text Lark accepts"""
+    import lark
+
+    global _RAW_PARSER
+    if _RAW_PARSER is None:
+        _RAW_PARSER = Parser(parser="lalr", propagate_positions=True)
+    try:
+        tree = _RAW_PARSER.parse(text)
+    except Exception:  # noqa: BLE001
+        return []
+    out = []
+
+    def walk(t):
+        if not isinstance(t, lark.Tree):
+            return
+        if t.data == "assignment" and len(t.children) >= 2 and isinstance(t.children[1], lark.Tree):
+            e = t.children[1]
+            try:
+                want = tree_to_sx(e)
+            except Exception:  # noqa: BLE001
+                want = None
+            cm = next((c for c in t.children[2:] if isinstance(c, lark.Tree) and c.data == "comment"), None)
+            # the end of the expression is not the end of its tree (the parentheses of "(a + b)" are filtered out of it): the code
+            # ends where the comment, the NEWLINE token or the assignment ends
+            nlt = next((c for c in t.children[2:] if isinstance(c, lark.Token) and c.type == "NEWLINE"), None)
+            end = nlt.start_pos if nlt is not None else t.meta.end_pos
+            if cm is not None:
+                # the first line of the comment (further comment lines are merged into it by the grammar)
+                nl = text.find("\n", cm.meta.start_pos)
+                end = nl if nl >= 0 else len(text)
+            src = text[t.meta.start_pos:end]
+            if want is not None and all(ord(ch) < 128 for ch in src):
+                out.append((src, str(t.children[0]), want, cm is not None))
+            return
+        for c in t.children:
+            walk(c)
+    walk(tree)
+    return out
